@@ -48,6 +48,13 @@ PURE_APPS = {
     "builtins.hex",
 }
 
+# clock-reading calls -> max number of positional args for which the *current* time is read
+CLOCK_READS = {
+    "time.time": 0, "time.time_ns": 0, "time.monotonic": 0, "time.strftime": 1, "time.localtime": 0, "time.gmtime": 0,
+    "time.ctime": 0, "time.asctime": 0,
+    "datetime.datetime.utcnow": 0, "datetime.datetime.now": 1, "datetime.datetime.today": 0, "datetime.date.today": 0,
+}
+
 MAY_RAISE_APPS = {
     "time.strptime": "ValueError",
     "datetime.datetime.strptime": "ValueError",
@@ -238,6 +245,24 @@ def call_ext(I: Any, name: str, args: List[Term], kwargs: Dict[str, Term], st: A
             f = {"min": min, "max": max, "abs": abs}[name.split(".")[1]]
             return c(f(*[a[1] for a in args]) if name != "builtins.abs" else abs(args[0][1]))
         return app(name.split(".")[1], args, kwargs)
+    if name == "builtins.getattr" and len(args) >= 2 and is_c(args[1]) and isinstance(args[1][1], str):
+        obj, nm = args[0], args[1][1]
+        if obj[0] == "obj":
+            ho = st.heap[obj[1]]
+            known = nm in ho.fields or (ho.cls is not None and (ho.cls.find_method(nm) or ho.cls.find_property(nm)))
+            if known or len(args) == 2:
+                return I.getattr(obj, nm, st, ctx, node)
+            from .interp import Event, ite
+            st.events.append(Event("readattr", f"{I.describe(obj, st)}.{nm}", (), (), where, ctx.fi.key if ctx.fi else "", pc_len=len(st.pc)))
+            v = ("sym", f"{I.describe(obj, st)}.{nm}", "any")
+            return ite(("hasattr", ("sym", I.describe(obj, st), "any"), args[1]), v, args[2])
+    if name in CLOCK_READS and len(args) <= CLOCK_READS[name] and not any(k in kwargs for k in ("tz",)):
+        # reading the clock: every evaluation is a distinct occurrence
+        occ = ("occ", st.fresh("clock"))
+        r = ("app", name) + tuple(args) + kwitems(kwargs) + (occ,)
+        if name == "time.strftime":
+            return text_of(r)
+        return r
     if name in PURE_APPS:
         if name in MAY_RAISE_APPS:
             st.may_raise(MAY_RAISE_APPS[name], ("invalid", name, tuple(args) + kwitems(kwargs)), where)
